@@ -462,7 +462,11 @@ fn validate_nameserver_response(
         let mut nameserver_rrs = Vec::<ResourceRecord>::with_capacity(ns_names.len() * 2);
         for rr in &response.answers {
             match &rr.rtype_with_data {
-                RecordTypeWithData::NS { nsdname } if ns_names.contains(nsdname) => {
+                // NS RRs of the delegated name only: another name delegating
+                // to the same host is none of our business
+                RecordTypeWithData::NS { nsdname }
+                    if rr.name == match_name && ns_names.contains(nsdname) =>
+                {
                     nameserver_rrs.push(rr.clone());
                 }
                 RecordTypeWithData::A { .. } if ns_names.contains(&rr.name) => {
@@ -476,7 +480,9 @@ fn validate_nameserver_response(
         }
         for rr in &response.authority {
             match &rr.rtype_with_data {
-                RecordTypeWithData::NS { nsdname } if ns_names.contains(nsdname) => {
+                RecordTypeWithData::NS { nsdname }
+                    if rr.name == match_name && ns_names.contains(nsdname) =>
+                {
                     nameserver_rrs.push(rr.clone());
                 }
                 _ => (),
